@@ -1,7 +1,7 @@
 \* C08 exhaustive design check (template: @@..@@ substituted by harness/drivers/c08).
 \* Every behaviour starts by fixing the backend shape and the set of repairs the code has:
 \*   fixes = {} (as-is)  : FindLiveOrDev - every violation of FindLive is explained by a named deviation
-\*   fixes = all three   : Repaired      - FindLive holds and no deviation is reachable
+\*   fixes = all four    : Repaired      - FindLive holds and no deviation is reachable
 \*   always              : FindClosed, IndexSound
 \* Lifetimes are remaining ticks (TTL = 2, heartbeat period 1 tick): sessions of any length are covered.
 CONSTANTS
@@ -13,6 +13,7 @@ CONSTANTS
   MaxHist = 99
   Shapes = @@SHAPES@@
   FixSets = @@FIXSETS@@
+  Causes = {"peer", "sweep"}
   Emit = FALSE
   Only = "all"
 INIT Init
